@@ -55,7 +55,7 @@ func ruleR20Scalar(c *Ctx, prop string) {
 		"C07": {"Reshape", "Flatten", "Squeeze", "Unsqueeze", "Shape"},
 		"C08": {"Transpose", "Concat", "Slice", "Gather", "Expand"},
 		"C09": {"ArgMax", "ReduceMax", "ReduceMin", "Softmax", "LogSoftmax"},
-		"C10": {"PRelu"},
+		"C10": propOps["C10"],
 		"C11": {"Cast", "Constant", "ConstantOfShape"},
 	}
 	n := 0
@@ -570,4 +570,251 @@ func (c *Ctx) castAdmits(elem string) bool {
 		}
 	}
 	return false
+}
+
+// ruleBackingFromData (R20:backing): a value derived from Tensor.Data() that is handed to
+// tensor.WithBacking must be a slice for every tensor that can arrive: Data() of a rank-0 tensor is a
+// bare value and WithBacking panics on it ("Expected a slice"). So the value must have passed the scalar
+// wrapper, and the wrapper must have a case for every element type the operators in scope admit.
+func ruleBackingFromData(c *Ctx, prop string) {
+	wrapper, covered := c.scalarWrapper()
+	if wrapper == nil {
+		c.undecided("R20", "R20:backing:anchor", "", "no scalar-to-slice wrapper found in package ops")
+		return
+	}
+	var roots []*ssa.Function
+	admitted := map[string]bool{}
+	type opReach struct {
+		reach map[*ssa.Function]bool
+		types map[string]bool
+	}
+	var perOp []opReach
+	for _, name := range opsOfProp(prop) {
+		oi := c.opByName(name)
+		if oi == nil {
+			continue
+		}
+		roots = append(roots, oi.methods["Apply"])
+		or := opReach{reach: c.reachFrom([]*ssa.Function{oi.methods["Apply"]}), types: map[string]bool{}}
+		for _, row := range c.gateTableOf(oi).rows {
+			for _, d := range row {
+				admitted[strings.ToLower(d)] = true
+				or.types[strings.ToLower(d)] = true
+			}
+		}
+		perOp = append(perOp, or)
+	}
+	// admittedAt: the element types of the operators in scope whose Apply reaches f
+	admittedAt := func(f *ssa.Function) map[string]bool {
+		out := map[string]bool{}
+		hit := false
+		for _, or := range perOp {
+			if or.reach[f] {
+				hit = true
+				for d := range or.types {
+					out[d] = true
+				}
+			}
+		}
+		if !hit || prop == "C14" {
+			return admitted
+		}
+		return out
+	}
+	if prop == "C14" || prop == "C03" {
+		for _, f := range c.libFns {
+			if fnPkgPath(f) == pkgOps && f.Parent() == nil && f.Object() != nil && f.Object().Exported() && strings.Contains(f.Name(), "roadcast") {
+				roots = append(roots, f)
+			}
+			if fnPkgPath(f) == pkgOps && f.Parent() == nil && f.Name() == "AddExtraDimsToTensor" {
+				roots = append(roots, f)
+			}
+		}
+		if prop == "C14" {
+			// the helpers serve every operator: every element type a gate admits anywhere
+			for _, oi := range c.operators() {
+				if oi.control {
+					continue
+				}
+				for _, row := range c.gateTableOf(oi).rows {
+					for _, d := range row {
+						admitted[strings.ToLower(d)] = true
+					}
+				}
+			}
+		}
+	}
+	reach := c.reachFrom(roots)
+	scope := func(f *ssa.Function) bool { return reach[f] }
+	var seeds, wseeds []ssa.Value
+	for f := range reach {
+		if strings.HasSuffix(c.fileOf(f.Pos()), ".pb.go") {
+			continue
+		}
+		for _, b := range f.Blocks {
+			for _, in := range b.Instrs {
+				call, ok := in.(*ssa.Call)
+				if !ok {
+					continue
+				}
+				if nm, _ := tensorMethod(call); nm == "Data" {
+					seeds = append(seeds, call)
+				}
+				if call.Common().StaticCallee() == wrapper {
+					wseeds = append(wseeds, call)
+				}
+			}
+		}
+	}
+	D := c.forwardSet(seeds, nil, scope)
+	W := c.forwardSetCtx(wseeds, nil, scope, D)
+	var fns []*ssa.Function
+	for f := range reach {
+		fns = append(fns, f)
+	}
+	sort.Slice(fns, func(i, j int) bool { return fname(fns[i]) < fname(fns[j]) })
+	n := 0
+	per := map[string]int{}
+	for _, f := range fns {
+		if f == wrapper || !isLibFn(f) {
+			continue
+		}
+		for _, b := range f.Blocks {
+			for _, in := range b.Instrs {
+				call, ok := in.(*ssa.Call)
+				if !ok {
+					continue
+				}
+				o := calleeObj(call)
+				if o == nil || qualName(o) != pkgTensor+".WithBacking" || len(call.Common().Args) == 0 {
+					continue
+				}
+				v := call.Common().Args[0]
+				if staticallySlice(v, 0) {
+					continue
+				}
+				if mi, isMI := v.(*ssa.MakeInterface); isMI {
+					v = mi.X
+				}
+				if !D.has(v) && !D.has(call.Common().Args[0]) {
+					continue
+				}
+				n++
+				fnKey := fname(f)
+				per[fnKey]++
+				key := fmt.Sprintf("R20:backing:%s#%d", fnKey, per[fnKey])
+				site := c.pos(call.Pos())
+				if !W.has(v) && !W.has(call.Common().Args[0]) {
+					if prop == "C09" {
+						c.note("R20", key, site, "Data() is used as backing without the scalar wrapper: a rank-0 input panics (rank 0 is outside this property's quantifier)")
+						continue
+					}
+					c.violate("R20", key, site, "Data() of an operand is handed to tensor.WithBacking without the scalar wrapper: for a rank-0 tensor Data() is a bare value and WithBacking panics (\"Expected a slice\")")
+					continue
+				}
+				var missing []string
+				for d := range admittedAt(f) {
+					if !covered[d] {
+						missing = append(missing, d)
+					}
+				}
+				sort.Strings(missing)
+				c.decide(len(missing) == 0, "R20", key, site, "the backing passed the scalar wrapper, which has a case for every admitted element type",
+					"the backing passed the scalar wrapper, but the wrapper has no case for "+strings.Join(missing, ", ")+" although operators in scope admit tensors of those types: a rank-0 tensor of such a type still arrives as a bare value and tensor.WithBacking panics")
+			}
+		}
+	}
+	c.counts["R20.backing_sites"] = n
+	if n == 0 {
+		c.discharge("R20", "R20:backing:none", "", fmt.Sprintf("no Data()-derived value reaches tensor.WithBacking in the %d functions in scope", len(reach)))
+	}
+}
+
+// staticallySlice: an interface value that holds a Go slice on every path (MakeInterface of a slice, phi of such).
+func staticallySlice(v ssa.Value, depth int) bool {
+	if depth > 4 {
+		return false
+	}
+	switch x := v.(type) {
+	case *ssa.MakeInterface:
+		_, ok := x.X.Type().Underlying().(*types.Slice)
+		return ok
+	case *ssa.Phi:
+		for _, e := range x.Edges {
+			if k, isK := e.(*ssa.Const); isK && k.Value == nil {
+				continue
+			}
+			if !staticallySlice(e, depth+1) {
+				return false
+			}
+		}
+		return len(x.Edges) > 0
+	}
+	_, ok := v.Type().Underlying().(*types.Slice)
+	return ok
+}
+
+// ruleExplicitShape (R26): a tensor built over a Go slice states its shape. gorgonia derives the shape
+// from the backing when none is given, and derives the *scalar* shape () from a one-element slice: a
+// list of one entry (the shape of a rank-1 tensor, a one-element attribute list) comes out rank 0.
+func ruleExplicitShape(c *Ctx, prop string) {
+	var roots []*ssa.Function
+	for _, name := range opsOfProp(prop) {
+		if oi := c.opByName(name); oi != nil {
+			roots = append(roots, oi.methods["Apply"], oi.methods["Init"])
+		}
+	}
+	reach := c.reachFrom(roots)
+	var fns []*ssa.Function
+	for f := range reach {
+		if isLibFn(f) && !strings.HasSuffix(c.fileOf(f.Pos()), ".pb.go") {
+			fns = append(fns, f)
+		}
+	}
+	sort.Slice(fns, func(i, j int) bool { return fname(fns[i]) < fname(fns[j]) })
+	n := 0
+	per := map[string]int{}
+	for _, f := range fns {
+		for _, b := range f.Blocks {
+			for _, in := range b.Instrs {
+				nw, ok := in.(*ssa.Call)
+				if !ok {
+					continue
+				}
+				o := calleeObj(nw)
+				if o == nil || qualName(o) != pkgTensor+".New" || len(nw.Common().Args) != 1 {
+					continue
+				}
+				hasSliceBacking, hasShape := false, false
+				for _, opt := range varargElems(nw.Common().Args[0]) {
+					oc, ok := opt.(*ssa.Call)
+					if !ok {
+						continue
+					}
+					oo := calleeObj(oc)
+					if oo == nil {
+						continue
+					}
+					switch qualName(oo) {
+					case pkgTensor + ".WithBacking":
+						if len(oc.Common().Args) > 0 && staticallySlice(oc.Common().Args[0], 0) {
+							hasSliceBacking = true
+						}
+					case pkgTensor + ".WithShape":
+						hasShape = true
+					}
+				}
+				if !hasSliceBacking {
+					continue
+				}
+				n++
+				fk := fname(f)
+				per[fk]++
+				c.decide(hasShape, "R26", fmt.Sprintf("R26:explicit-shape:%s#%d", fk, per[fk]), c.pos(nw.Pos()),
+					"the tensor over a Go slice is given its shape explicitly",
+					"a tensor is built over a Go slice without tensor.WithShape: gorgonia gives a one-element backing the scalar shape (), so a list with one entry (the shape of a rank-1 tensor, a one-element attribute) comes out as a rank-0 tensor")
+			}
+		}
+	}
+	c.counts["R26.slice_backed_tensors"] = n
 }
